@@ -80,6 +80,13 @@ class HwVendorCached:
     def __str__(self):
         return str(self._hw)
 
+    # as a dictionary key the wrapper is its HardwareView (code under test may key a cache by device.hw)
+    def __hash__(self):
+        return hash(self._hw)
+
+    def __eq__(self, other):
+        return self._hw == (other._hw if isinstance(other, HwVendorCached) else other)
+
 
 def device(vendor: str):
     h = hw(vendor)
